@@ -503,6 +503,9 @@ MUTANTS = [
     M("parser-loses-star-handler", _IP, "    def visitStar(self, node: Star) -> IterativeParserVisitorReturnType:", "    def visit_star(self, node: Star) -> IterativeParserVisitorReturnType:", "R04-d"),
 ]
 TWINS = [
+    M("twin-string-spec-names-other-way-round", "src/fandango/language/parse/parse.py", "            name = \"<string>\" if string_specs == 1 else f\"<string-{string_specs}>\"\n", "            name = f\"<string-{string_specs}>\" if string_specs > 1 else \"<string>\"\n", None),
+    M("twin-aligned-scan-positive-guard", _IP, "                        elif curr_table_idx % 8 != 0:\n                            # Bytes and regexes are scanned at byte boundaries only: inside a\n                            # partly consumed byte there is no whole byte to match.\n                            match = False\n                        else:\n                            if state.dot is not None and state.dot.is_regex:\n",
+      "                        elif curr_table_idx % 8 != 0:\n                            match = False  # no whole byte to match inside a partly consumed byte\n                        else:\n                            if state.dot is not None and state.dot.is_regex:\n", None),
     M("twin-forest-memo-behind-helpers", _P, "        cache_key = (word, start, mode, hookin_parent, starter_bit)\n        forest: list[DerivationTree]\n        if cache_key in self._cache:\n            forest = self._cache[cache_key]\n",
       "        cache_key = (word, start, mode, hookin_parent, starter_bit)\n        forest: list[DerivationTree]\n        cached = self._cached_forest(cache_key)\n        if cached is not None:\n            forest = cached\n", None,
       more=(("        self._cache: dict[\n            tuple[\n                str | bytes,\n                NonTerminal,\n                ParsingMode,\n                Optional[DerivationTree],\n                int,\n            ],\n            list[DerivationTree],\n        ] = {}\n",
